@@ -335,5 +335,16 @@ def run(repo: Repo, tier: str) -> Report:
             names = const_list(n.args[1])
     rep.ob("R-BIND", AFILE, "PixelAlgorithms.mktrend", "outputs are named tau, pvalue, slope, trend in the kernel's order", names == ["tau", "pvalue", "slope", "trend"],
            f"names = {names}", "zip(x, [names])")
+    # dispatch: the nodata-aware kernel is used whenever a nodata attribute exists (0 is a legitimate nodata value)
+    disp = [n for n in ast.walk(m) if isinstance(n, ast.If) and any(isinstance(c, ast.Name) and c.id == "_mann_kendall_trend_gu" for c in ast.walk(ast.Module(body=n.body, type_ignores=[])))]
+    nd_defs = [norm_stmt(st.value) for st in ast.walk(m) if isinstance(st, ast.Assign) and isinstance(st.targets[0], ast.Name) and st.targets[0].id == "nodata"]
+    okd = (len(disp) == 1 and norm_stmt(disp[0].test) == "nodata is None"
+           and any(isinstance(c, ast.Name) and c.id == "_mann_kendall_trend_gu_nd" for c in ast.walk(ast.Module(body=disp[0].orelse, type_ignores=[])))
+           and nd_defs in (["self._obj.attrs.get('nodata', None)"], ["self._obj.attrs.get('nodata')"]))
+    rep.ob("R-BIND", AFILE, "PixelAlgorithms.mktrend", "the kernel without nodata handling is used exactly when the nodata attribute is absent (`is None`)", okd,
+           f"dispatch test `{norm_stmt(disp[0].test) if disp else None}`, nodata = {nd_defs}: a truthiness test sends nodata = 0 to the kernel that treats every cell as data",
+           disp[0].test if disp else "dispatch")
+    from ..rules import r_truthy
+    r_truthy(rep, repo, "PixelAlgorithms", "mktrend", ["nodata"], "0 is a legitimate nodata value (it is the one the test-suite uses); a truth test silently replaces or drops it")
     rep.floor("C10 obligations", len(rep.obls), 40)
     return rep
